@@ -74,6 +74,11 @@ def run_scn(scn, on_step):
 
 def check_scn(scn):
     """None if the manager agrees with the reference at every step, else a description"""
+    with cm.aware(scn.get("tzoff")):
+        return _check_scn(scn)
+
+
+def _check_scn(scn):
     exact = not scn.get("ha")
     st = {"prev": None, "void": False}
 
@@ -135,6 +140,7 @@ def gen_scn(rng, tf=True, fill=False, ha=False, life=False, size=60):
         s = gen.tf_seconds(tfv)
         step = max(1, s // rng.choice([1, 2, 3, 4, 5, 10, 20])) if (fill or rng.random() < 0.8) else None
     stream, meta = gen.gen_stream(rng, n, step=step)
+    tzoff = rng.choice([330, 345, 60, -300, 765, -210]) if (tfv and rng.random() < 0.1) else None
     if ha and rng.random() < 0.15:
         # the four Heikin-Ashi formulas are defined for ANY o/h/l/c: feeds whose close prints outside [low, high], or that give
         # only open / close (high = low = 0, the Candle defaults) - max / min must still range over all of h, HA-open, HA-close
@@ -153,6 +159,9 @@ def gen_scn(rng, tf=True, fill=False, ha=False, life=False, size=60):
     (init, chunks), shape = gen.gen_schedule(rng, n)
     scn = {"tf": tfv, "fill": bool(fill and tfv), "ha": bool(ha), "stream": stream, "init": init, "chunks": chunks,
            "life": None, "extra_passes": rng.choice([0, 0, 1, 2])}
+    if tzoff is not None and stream and all(t[0] is not None for t in stream):
+        scn["tzoff"] = tzoff   # aware stamps, fixed UTC offset: buckets align to the wall clock of the stamps' own zone
+        meta["aware"] = True
     if life:
         base = gen.tf_seconds(tfv) if tfv else rng.choice([1, 60, 3600])
         scn["life"] = base * rng.randint(0, 40) + rng.choice([0, 0, 0, 1, base // 2, max(base - 1, 0), 7])
